@@ -140,11 +140,25 @@ class Walker:
             if not new:
                 return ("ref", n)
             shapes = []
-            for k in v:
-                def st(x, v=v, k=k):
-                    v[k] = x
-                shapes.append((str(k), self.visit(v[k], f"{path}[{k}]", st)))
-            return ("d", n) + tuple(shapes)
+            for i, k in enumerate(list(v.keys())):
+                if isinstance(k, Opaque):
+                    # a store keyed by user objects (cache): keys are slots, order is part of the state
+                    def stk(x, v=v, i=i):
+                        items = list(v.items())
+                        items[i] = (x, items[i][1])
+                        dict.clear(v)
+                        for kk, vv in items:
+                            dict.__setitem__(v, kk, vv)
+                    def stv(x, v=v, i=i):
+                        kk = list(v.keys())[i]
+                        dict.__setitem__(v, kk, x)
+                    ksh = self.visit(k, f"{path}.key{i}", stk)
+                    shapes.append((ksh, self.visit(dict.__getitem__(v, k), f"{path}.val{i}", stv)))
+                else:
+                    def st(x, v=v, k=k):
+                        dict.__setitem__(v, k, x)
+                    shapes.append((str(k), self.visit(dict.__getitem__(v, k), f"{path}[{k}]", st)))
+            return ("d", n, type(v).__name__) + tuple(shapes)
         if isinstance(v, Obj):
             n, new = self.oid(v)
             if not new:
@@ -471,6 +485,9 @@ class Verifier:
         return res
 
     def explore(self):
+        if self.job.opts.get("snapshot") and self.mode == "prove":
+            return self.explore_snapshots()
+        self.cur_snap = None
         self.owner = {}
         work = [[]]
         n = 0
@@ -501,6 +518,44 @@ class Verifier:
         if self.final:
             self.result.paths = n
 
+    def explore_snapshots(self):
+        """protocol jobs: every cut point of the consumer loop is explored from a snapshot of its generic state"""
+        self.owner = {}
+        self.snapshots = {}
+        queue = [None]
+        n = 0
+        while queue:
+            snap = queue.pop(0)
+            work = [[]]
+            while work:
+                dec = work.pop()
+                n += 1
+                if n > self.job.max_paths:
+                    raise Budget(f"more than {self.job.max_paths} paths")
+                ctx = Ctx(dec, self.timeout_ms)
+                self.cur_snap = snap
+                self.new_snaps = []
+                try:
+                    self.run_path(ctx)
+                except (PathEnd, Infeasible):
+                    pass
+                except Diverged as d:
+                    if self.final:
+                        raise Budget(f"decision replay diverged in the final round: {d}")
+                    self.changed = True
+                    continue
+                finally:
+                    if self.final:
+                        for mod, line, kind in ctx.awaits:
+                            self.result.record(f"await-operand/{mod}:L{line}/{kind}", "await-effect", not kind.startswith("other"),
+                                               detail=f"{mod}:{line} awaits {kind}")
+                    self.result.solver_s += ctx.solver_s
+                    self.result.queries += ctx.queries
+                work.extend(ctx.pending)
+                queue.extend(self.new_snaps)
+        if self.final:
+            self.result.paths = n
+
     # ---------------------------------------------------------------
     def setup_modules(self):
         """per-job linking: contract overrides for the _core helpers"""
@@ -518,6 +573,9 @@ class Verifier:
                             m.overrides[local] = Builtin("contract.aiter")
                         elif name == "awaitify":
                             m.overrides[local] = Builtin("contract.awaitify")
+        if self.job.opts.get("callkey_contract"):
+            ck = prog.module("_lrucache").lookup("CallKey")
+            ck.attrs["from_call"] = StaticMethod(Builtin("contract.callkey"))
         for mn, names in (self.job.opts.get("module_overrides") or {}).items():
             for k, v in names.items():
                 prog.module(mn).overrides[k] = v
@@ -550,7 +608,14 @@ class Verifier:
                     f"{mod} inspects the sync/async flavour of a user argument outside _core: {what} "
                     "(sync and async arguments take different code paths)")
         impl_i.flavour_tests = _FT()
-        a = job.mk(ctx, env)
+        snap = getattr(self, "cur_snap", None)
+        restored = None
+        if snap is not None:
+            restored = snap.restore(env, ctx)
+            a = dict(iargs=[], rargs=[])
+        else:
+            a = job.mk(ctx, env)
+        self.skip_cut_once = snap is not None
         impl_fn = self.resolve(self.impl_prog, job.impl)
         ref_fn = self.resolve(self.ref_prog, job.ref)
         self.open_cuts = {}
@@ -560,21 +625,27 @@ class Verifier:
         self.trace = env.trace
 
         def start(ip, fn, args, kw):
-            try:
-                r = yield from ip.call(fn, args, kw)
-                if isinstance(r, Coroutine):
-                    r = yield from ip.await_(r)
-            except PyRaise as pr:
-                yield Ev("Done", ("raise", pr.exc))
-                return
+            if restored is not None:
+                r = None
+            else:
+                try:
+                    r = yield from ip.call(fn, args, kw)
+                    if isinstance(r, Coroutine):
+                        r = yield from ip.await_(r)
+                except PyRaise as pr:
+                    yield Ev("Done", ("raise", pr.exc))
+                    return
             if job.kind == "protocol":
                 # an arbitrary history of operations on the returned object (and on handles it hands out);
                 # the consumer loop itself is a cut point, so histories are unbounded
-                H = {"self": r}
-                for hname, (ispec, rspec) in (job.opts.get("handles") or {}).items():
-                    spec = ispec if ip.side == "impl" else rspec
-                    if spec is not None:
-                        H[hname] = self.resolve(self.impl_prog if ip.side == "impl" else self.ref_prog, spec)
+                if restored is not None:
+                    H = restored[0] if ip.side == "impl" else restored[1]
+                else:
+                    H = {"self": r}
+                    for hname, (ispec, rspec) in (job.opts.get("handles") or {}).items():
+                        spec = ispec if ip.side == "impl" else rspec
+                        if spec is not None:
+                            H[hname] = self.resolve(self.impl_prog if ip.side == "impl" else self.ref_prog, spec)
                 ip.roots = H
                 proto = job.protocol
                 while True:
@@ -693,11 +764,12 @@ class Verifier:
     def respond(self, ctx, ev, env):
         job = self.job
         faults = job.faults and not env.fault_used
+        fk = job.opts.get("fault_kinds", ("raise", "cancel"))
         if ev.kind == "Pull":
             src = ev.payload[0]
             src.state = "running"
             src.pulls += 1
-            opts = ["item", "end"] + (["raise", "cancel"] if faults else [])
+            opts = ["item", "end"] + (list(fk) if faults else [])
             c = opts[ctx.choose(len(opts), f"pull {src.name}")]
             if c == "item":
                 v = Opaque(ctx.fresh(Val, f"{src.name}{src.pulls}_"))
@@ -718,7 +790,7 @@ class Verifier:
             return ("raise", e)
         if ev.kind == "Call":
             fn = ev.payload[0]
-            opts = ["ret"] + (["raise", "cancel"] if faults else [])
+            opts = ["ret"] + (list(fk) if faults else [])
             c = opts[ctx.choose(len(opts), f"call {fn.name}")] if len(opts) > 1 else "ret"
             d = f"call {fn.name}({','.join(describe(x) for x in ev.payload[1])})"
             if c == "ret":
@@ -766,7 +838,7 @@ class Verifier:
                 env.fault_used = True
             return (c, None)
         if ev.kind in ("AwaitVal", "Await"):
-            opts = ["ret"] + (["raise", "cancel"] if faults else [])
+            opts = ["ret"] + (list(fk) if faults else [])
             c = opts[ctx.choose(len(opts), "await")] if len(opts) > 1 else "ret"
             if c == "ret":
                 pl = getattr(ev.payload[0], "payload", None) if ev.kind == "Await" else None
@@ -1170,7 +1242,25 @@ class Verifier:
             if self.loop_counts[k] > self.unroll + 1:
                 raise PathEnd()
             return
+        if site == (-1, 0) and getattr(self, "skip_cut_once", False):
+            self.skip_cut_once = False      # this arrival IS the restored cut point
+            return
+        if site == (-1, 0):
+            # consumer loop of a protocol job: every arrival is a cut point; counters are symbolic from the start
+            _, wa = self.state_key(impl_i, ref_i, site, True)
+            for pth, (setter, val) in wa.ints.items():
+                setter(SInt(z3.IntVal(val)))
         key, w = self.state_key(impl_i, ref_i, site, False)
+        if site == (-1, 0) and self.job.opts.get("snapshot") and self.mode == "prove":
+            if key in self.snapshots:
+                self.cut_arrive(ctx, key, w)
+                raise PathEnd()
+            from .snapshot import Snapshot
+            self.cut_enter(ctx, key, w)
+            sn = Snapshot(self.env, impl_i.roots, ref_i.roots, ctx, self.trace)
+            self.snapshots[key] = sn
+            self.new_snaps.append(sn)
+            raise PathEnd()
         if key in self.open_cuts:
             self.cut_step(ctx, key, w)
             raise PathEnd()
@@ -1216,12 +1306,15 @@ class Verifier:
         # any other path arriving there only has to establish the invariant (cut-point induction)
         prefix = tuple(ctx.decisions[:ctx.di])
         own = self.owner.get(key)
+        replay = False
         if own is None:
             self.owner[key] = prefix
         elif own != prefix:
             self.cut_arrive(ctx, key, w)
             raise PathEnd()
-        self.cut_enter(ctx, key, w)
+        else:
+            replay = True       # the owner's prefix re-executed for another branch: same state, checks already done
+        self.cut_enter(ctx, key, w, replay)
 
     def filter_valid(self, ctx, formulas):
         """names of the formulas NOT implied by the path condition (model-guided batch refinement)"""
@@ -1288,7 +1381,7 @@ class Verifier:
         if self.final:
             self.result.record(f"{self.job.name}/inv-init/L{key[0][0]}", "inv-init", True)
 
-    def cut_enter(self, ctx, key, w):
+    def cut_enter(self, ctx, key, w, replay=False):
         slots = w.slots
         terms = {s.path: s.get() for s in slots}
         # duplicate paths (aliases) keep the first
@@ -1309,7 +1402,7 @@ class Verifier:
                         del cs[name]
             self.cands[key] = cs
         cands = self.cands[key]
-        bad = self.filter_valid(ctx, {name: cands[name](terms, entry) for name in cands})
+        bad = self.filter_valid(ctx, {name: cands[name](terms, entry) for name in cands}) if not (replay and not self.changed) else ()
         for name in bad:
             if name.startswith("declared:"):
                 if self.final:
